@@ -81,6 +81,10 @@ CLAIMED = {
          "Trace validation of the MySQL / PostgreSQL renderings of the TLC-generated declaration histories: CREATE TABLE elements in declaration order with one dialect-defined type per column (parameters / UNSIGNED / serial types) and each specification once, table-level indexes / foreign keys / checks, ALTER TABLE actions complete and correctly separated (PostgreSQL's per-specification sub-clauses), index / foreign-key / type statements in the dialect's form.",
          "Trusted: the transcribed MySQL 8.0 / PostgreSQL 15 DDL grammars and type tables (no engine available); TLC. Table options are not compared.",
          "§5 C14"),
+ "C19": ("Derive.tla: the derive macros as a function from a type definition to the names its values spell — word boundaries stated position by position (property level), a transcription of heck's scanner and of the generated fast-path predicate (implementation level), the attribute table; TLC checks scanner = stated boundaries and fast path sound/tight on all words, builds the type definitions step by step; the definitions are compiled with the real proc-macros against /repo and every value's to_string / prepare / as_str is validated by TLC",
+         "Bounded-exhaustive model checking (all identifiers up to the tier's length over {A B a 1 _}, all name strings over an alphabet with quote characters, all type definitions up to the tier's variant count, simulated larger ones) bound to the code by compiling each generated definition with the real Iden / IdenStatic / enum_def macros and validating the observed names and quoted texts (three quote styles incl. the asymmetric [ ]) against the attribute table and the general identifier quoting; a definition whose expansion does not compile is a violation.",
+         "Trusted: TLC; rustc as the executor of the proc-macros; ASCII identifiers only. The identifiers enum_def is expected to generate come from the model (wrong ones fail to compile and are reported).",
+         "§5 C19"),
 }
 NA = {
  "C20": "Type-level fact about Rust auto-traits decided only by rustc's trait solver; no state, transition or observable behaviour to model or trace (DESIGN.md §5 C20).",
